@@ -221,6 +221,43 @@ Theorem C12_depth_text_after_children_refuted :
 Proof. exact depth_text_after_children_refuted. Qed.
 Print Assumptions C12_depth_text_after_children_refuted.
 
+(* C12_close_aligned (FULL; same proof as C12_indent_is_depth with the alignment obligation threaded through):
+   a closing tag that is first on its line has the indentation of the line on which its opening tag stands.
+   SPEC (proofs/FormatLines.v):
+     line_of f A k           the chunks A end on a line with k indent units: A has no line break and k = 0 (the first
+                             line), or A = A1 ++ line break of k units ++ chunks without line break
+     opens_innermost E A o B the chunk o (after A, before B) is the opening tag of the innermost element that is open
+                             after A ++ o :: B: o raises the number of open elements by one, to its value after B, and
+                             that number never falls below it inside B
+     aligned_at f E pre k    every such opening tag chunk o, pre = A ++ o :: B, stands on a line with k units
+   STATEMENT: for every line-break chunk (reading k, more as in C12_indent_is_depth): if the first text on the line is a
+   closing tag, the opening tag of the element it closes stands on a line with the same k units.  Same reading of
+   "aligned" as the oracle harness/format_util.depth_check: the indentation of the closing tag's line against the
+   indentation of the line of the opening tag, the first line counting as baseIndent + 0 units.
+   DOMAIN: that of C12_indent_is_depth, and
+     align_dom c forest      every element whose closing tag goes on a line of its own (closes_own_line: its last child is
+                             line-broken; or no children and a text with a line break; or an empty leaf under
+                             formatLeafNode / formatForce) is line-broken itself (should_format), or is the very first node.
+   The excluded shapes deviate on the code: known finding C12:close-aligned-inline-leaf-inner-format (an inline leaf
+   with inner formatting), proved on the model by C12_close_aligned_inline_leaf_refuted; and inline elements that
+   are not line-broken although their last child is (should_format() asks its children with the grandparent as
+   parent: the first top-level rule "do not format the very first node" fires for the first child of a top-level inline
+   element), recorded as finding C12:close-aligned-unformatted-inline-parent. *)
+Theorem C12_close_aligned c forest :
+  oc_format_skip c = [] -> cfg_depth c = true -> depth_dom c forest = true -> align_dom c forest = true ->
+  forall pre s rest, fchunks (html_format c forest) = pre ++ CT true s :: rest ->
+    exists k more, indented (oc_fmt c) k rest more /\
+                   k = (open_at (flat_map (tree_events c) forest) pre - (if starts_close more then 1 else 0))%Z /\
+                   (starts_close more = true -> aligned_at (oc_fmt c) (flat_map (tree_events c) forest) pre k).
+Proof. exact (close_aligned_full_lemma c forest). Qed.
+Print Assumptions C12_close_aligned.
+
+Theorem C12_close_aligned_inline_leaf_refuted :
+  oc_format_skip ax_cfg = [] /\ cfg_depth ax_cfg = true /\ depth_dom ax_cfg ax_tree = true /\ align_dom ax_cfg ax_tree = false /\
+  ~ lines_aligned (oc_fmt ax_cfg) (flat_map (tree_events ax_cfg) ax_tree) (fchunks (html_format ax_cfg ax_tree)).
+Proof. exact close_aligned_inline_leaf_refuted. Qed.
+Print Assumptions C12_close_aligned_inline_leaf_refuted.
+
 (* level_restored: the indentation level (the number of indent units a line break made now
    would be followed by) is the same after an element as before it, for ALL trees, sibling
    positions, option records and stream states. *)
@@ -335,3 +372,18 @@ Example selfclose_nonvacuous :
   close_chunk s_html = CT false [62%N] /\ close_chunk s_xhtml = CT false [32;47;62]%N /\
   fchunks (html_format (with_style s_html ex_c1) t) <> fchunks (html_format (with_style s_xhtml ex_c1) t).
 Proof. cbv zeta. repeat split; try reflexivity. vm_compute. discriminate. Qed.
+
+(* Non-vacuity of C12_close_aligned: the same tree is in align_dom; the last line break (before </div>) has 0 units, the
+   line starts with the closing tag, and the opening tag <div stands on the first line. *)
+Example close_aligned_nonvacuous :
+  align_dom ex_c1 ex_tree = true /\
+  exists pre rest, fchunks (html_format ex_c1 ex_tree) = pre ++ CT true [10%N] :: rest /\
+                   starts_close rest = true /\ open_at (flat_map (tree_events ex_c1) ex_tree) pre = 1%Z /\
+                   line_of (oc_fmt ex_c1) [] 0.
+Proof.
+  split; [reflexivity|].
+  match goal with |- exists pre rest, ?X = _ /\ _ =>
+    let X' := eval vm_compute in X in exists (firstn 18 X'), (skipn 19 X') end.
+  split; [vm_compute; reflexivity|]. split; [vm_compute; reflexivity|]. split; [vm_compute; reflexivity|].
+  left. split; [intros s0 []|reflexivity].
+Qed.
